@@ -48,6 +48,10 @@ pub enum Mode {
     /// as EnospcGo, but call k (a write) first stores a prefix of its buffer (chosen by `cut`) and
     /// returns the short count; the next mutating call - the rest of the same write_all - gets ENOSPC
     ShortGo,
+    /// call k (a write) returns a short count and nothing fails: no operation may report an error,
+    /// the history runs to its end, the process dies there (losing unsynced bytes) and everything
+    /// must be recovered
+    ShortOk,
     /// process crash before call k, then a SECOND process crash in the middle of the recovery (before
     /// one of the mutating calls the reopen issues, chosen by `cut`), then a recovery that completes
     A2,
@@ -66,6 +70,7 @@ impl Mode {
             Mode::EioGo => "eio-go",
             Mode::EnospcGo => "enospc-go",
             Mode::ShortGo => "short-go",
+            Mode::ShortOk => "short-ok",
             Mode::A2 => "a2",
             Mode::Lose2 => "lose2",
         }
@@ -79,6 +84,7 @@ impl Mode {
             "eio-go" => Mode::EioGo,
             "enospc-go" => Mode::EnospcGo,
             "short-go" => Mode::ShortGo,
+            "short-ok" => Mode::ShortOk,
             "a2" => Mode::A2,
             "lose2" => Mode::Lose2,
             _ => Mode::A,
@@ -115,8 +121,8 @@ pub fn child_run(args: &[String]) -> i32 {
     let _ = std::fs::create_dir_all(&root);
     shim::CRASH_AT.store(u64::MAX, std::sync::atomic::Ordering::SeqCst);
     shim::FAIL_AT.store(u64::MAX, std::sync::atomic::Ordering::SeqCst);
-    let fault = matches!(mode, "eio" | "enospc" | "eio-go" | "enospc-go" | "short-go");
-    let go = matches!(mode, "eio-go" | "enospc-go" | "short-go");
+    let fault = matches!(mode, "eio" | "enospc" | "eio-go" | "enospc-go" | "short-go" | "short-ok");
+    let go = matches!(mode, "eio-go" | "enospc-go" | "short-go" | "short-ok");
     let mut surfaced = false;
     match mode {
         "count" => {}
@@ -130,8 +136,9 @@ pub fn child_run(args: &[String]) -> i32 {
             shim::MODE_B.store(2, std::sync::atomic::Ordering::SeqCst);
             shim::CUT_SEL.store(cut, std::sync::atomic::Ordering::SeqCst);
         }
-        "eio" | "enospc" | "eio-go" | "enospc-go" | "short-go" => {
-            shim::FAIL_SHORT.store(mode == "short-go", std::sync::atomic::Ordering::SeqCst);
+        "eio" | "enospc" | "eio-go" | "enospc-go" | "short-go" | "short-ok" => {
+            shim::FAIL_SHORT.store(mode == "short-go" || mode == "short-ok", std::sync::atomic::Ordering::SeqCst);
+            shim::FAIL_SHORT_NO_ERROR.store(mode == "short-ok", std::sync::atomic::Ordering::SeqCst);
             shim::CUT_SEL.store(cut, std::sync::atomic::Ordering::SeqCst);
             shim::FAIL_AT.store(k, std::sync::atomic::Ordering::SeqCst);
             shim::FAIL_ERRNO.store(if mode.starts_with("eio") { libc::EIO } else { libc::ENOSPC }, std::sync::atomic::Ordering::SeqCst);
@@ -157,9 +164,20 @@ pub fn child_run(args: &[String]) -> i32 {
     };
     for (i, op) in case.ops.iter().enumerate() {
         shim::CURRENT_OP.store(i as u64, std::sync::atomic::Ordering::SeqCst);
-        let client = matches!(op, Op::Put { .. } | Op::Del { .. } | Op::Batch { .. } | Op::BigBatch { .. });
+        let client = matches!(op, Op::Put { .. } | Op::Del { .. } | Op::Batch { .. } | Op::BigBatch { .. } | Op::PutDuringFlush { .. });
         if client {
             let _ = writeln!(acks, "B {i}");
+        }
+        if let Op::PutDuringFlush { .. } = op {
+            // the put inside the flush is acknowledged the moment the store returns from it
+            let path = acks_path.clone();
+            *driver::INNER_ACK.lock().unwrap() = Some(Box::new(move || {
+                if let Ok(mut f) = std::fs::OpenOptions::new().append(true).open(&path) {
+                    let _ = writeln!(f, "A {i}");
+                }
+            }));
+        } else {
+            *driver::INNER_ACK.lock().unwrap() = None;
         }
         match vcore::guard(|| hs.apply(op)) {
             Ok(Ok(())) => {
@@ -629,8 +647,8 @@ impl CrashEnum {
             .status();
         let code = st.ok().and_then(|s| s.code());
         let (acked, inflight, other) = acks_of(&root);
-        let fault = matches!(case.mode, Mode::Eio | Mode::Enospc | Mode::EioGo | Mode::EnospcGo | Mode::ShortGo);
-        let go = matches!(case.mode, Mode::EioGo | Mode::EnospcGo | Mode::ShortGo);
+        let fault = matches!(case.mode, Mode::Eio | Mode::Enospc | Mode::EioGo | Mode::EnospcGo | Mode::ShortGo | Mode::ShortOk);
+        let go = matches!(case.mode, Mode::EioGo | Mode::EnospcGo | Mode::ShortGo | Mode::ShortOk);
         match code {
             Some(99) => {}
             Some(0) => {
@@ -912,7 +930,7 @@ impl Part for CrashEnum {
                 }
                 if (r >> 16) % 4 == 3 || (thorough && (r >> 16) % 4 == 2) {
                     // a full disk shows as a short write about as often as an outright ENOSPC
-                    modes.push(if trace[*k].kind == "write" && (r >> 32) % 2 == 0 { Mode::ShortGo } else { Mode::EnospcGo });
+                    modes.push(if trace[*k].kind == "write" && (r >> 32) % 2 == 0 { if (r >> 33) % 2 == 0 { Mode::ShortGo } else { Mode::ShortOk } } else { Mode::EnospcGo });
                 }
                 for mode in modes {
                     let case = CrashCase { history: history.clone(), k: *k as u64, mode, cut: vcore::mix(seed ^ (*k as u64) << 8 ^ hi) };
